@@ -20,7 +20,7 @@ def digests(prop, runs, hashseed, jobs, seed):
     os.close(fd)
     env = dict(os.environ, PYTHONHASHSEED=str(hashseed), PYTHONDONTWRITEBYTECODE="1")
     cp = subprocess.run(
-        ["/venv/bin/python", os.path.join(VERIF, "gsim", "runner.py"), prop, "--runs", str(runs), "--seed", str(seed), "--jobs", str(jobs), "--digests", path, "--no-evidence", "--wall", "3000", "--keep-going"],
+        ["/venv/bin/python", os.path.join(VERIF, "gsim", "main.py"), prop, "--runs", str(runs), "--seed", str(seed), "--jobs", str(jobs), "--digests", path, "--no-evidence", "--wall", "3000", "--keep-going"],
         capture_output=True, text=True, env=env)
     d = dict(line.split() for line in open(path))
     os.remove(path)
